@@ -23,6 +23,26 @@ def block(name, table, s):
     if a in s:
         return re.sub(re.escape(a) + r".*?" + re.escape(b), a + "\n" + table + "\n" + b, s, flags=re.S)
     return s.replace(name, a + "\n" + table + "\n" + b)
+kf = json.load(open(os.path.join(ROOT, "known_findings.json")))["findings"]
+rows = ["| property | commit | kind | what failed |", "|---|---|---|---|"]
+for e in kf:
+    if e["status"] == "fixed":
+        rows.append(f"| {e['property']} | {e['commit']} | `{e['kind']}` | {e['what']} |")
+fixed_table = "\n".join(rows)
+rows = ["| property | kind | site pattern | what fails |", "|---|---|---|---|"]
+for e in kf:
+    if e["status"] == "known":
+        rows.append(f"| {e['property']} | `{e['kind']}` | `{e['site_pattern'].replace('|', chr(92) + '|')}` | {e['what']} |")
+known_table = "\n".join(rows)
+rev_path = os.path.join(ROOT, "sensitivity_reverts.json")
+rows = ["| re-introduced defect (reverse of fix commit) | status at quick tier | kinds reported |", "|---|---|---|"]
+if os.path.exists(rev_path):
+    for r in json.load(open(rev_path))["results"]:
+        rows.append(f"| {os.path.basename(r['patch'])[:-6]} | {r['status']} | {', '.join(r.get('kinds', []))} |")
+reverts_table = "\n".join(rows)
+s = block("FIXED_TABLE", fixed_table, s)
+s = block("KNOWN_TABLE", known_table, s)
+s = block("REVERTS_TABLE", reverts_table, s)
 s = block("SEEDED_TABLE", seeded_table, s)
 s = block("MUTANT_TABLE", mutant_table, s)
 open(p, "w").write(s)
